@@ -176,9 +176,9 @@ def loop_exits(run, lc):
                         out.append(info["arms"][nme])
         return out
     term_arms = arm(("recv", "ctrl"), ["Some", "None"], cls_len=3)
-    stop_arms = arm(("recv", "mailbox"), ["None"], cls_len=3) + arm(("recv", "mailbox"), ["StopGracefully"], cls_len=4)
+    stop_arms = arm(("recv", "mailbox"), ["None"], cls_len=3) + arm(("recv", "mailbox"), [__import__("anchors").names(lc.f).stop], cls_len=4)
     err_arms = arm(("hook", "on_run"), ["Err"], cls_len=3)
-    env_arms = arm(("recv", "mailbox"), ["Envelope"], cls_len=4)
+    env_arms = arm(("recv", "mailbox"), [__import__("anchors").names(lc.f).envelope], cls_len=4)
     cont_arms = arm(("hook", "on_run"), ["true", "false"], kind="value", cls_len=4)
     run.require(term_arms and stop_arms and err_arms and env_arms and len(cont_arms) == 2, "O7.4", "arms-found",
                 "cannot identify the select! arms (term=%s stop=%s err=%s env=%s cont=%s)" % (term_arms, stop_arms, err_arms, env_arms, cont_arms), "all arms identified")
